@@ -22,9 +22,9 @@ counters! {
     // G0: in-memory baseline on the sampled value
     g0_items_checked, g0_reparse_ok,
     // printing phase
-    p_calls, p_accept, p_fail_transient, p_fail_sticky, p_reenter, p_runs_ok, p_runs_err,
+    p_calls, p_accept, p_fail_transient, p_fail_sticky, p_reenter, p_sink_panic, p_runs_ok, p_runs_err,
     // write phase, per SimWriter call
-    w_calls, w_accept, w_short, w_eintr, w_hard_transient, w_hard_sticky, w_full, w_lost, w_crash, w_reenter,
+    w_calls, w_accept, w_short, w_eintr, w_hard_transient, w_hard_sticky, w_full, w_lost, w_crash, w_reenter, w_sink_panic,
     w_after_crash_ignored,
     flush_calls, flush_ok, flush_err, flush_crash,
     bufwriter_runs, sync_each_write_runs, pretty_runs, fresh_instance_runs,
@@ -148,7 +148,7 @@ pub const SITE_NAMES: [&str; 15] = [
     "digit", "number", "15+digit-number", "alnum-identifier", "whitespace", "compound",
 ];
 
-pub const FAULT_NAMES: [&str; 13] = [
+pub const FAULT_NAMES: [&str; 14] = [
     "short", "eintr", "hard-transient", "hard-sticky", "full", "lost", "crash", "flush-err",
-    "fmt-fail-transient", "fmt-fail-sticky", "flush-crash", "accept", "reenter",
+    "fmt-fail-transient", "fmt-fail-sticky", "flush-crash", "accept", "reenter", "sink-panic",
 ];
